@@ -1,10 +1,11 @@
 --------------------------- MODULE PipelineApplyGen ---------------------------
 (* Generator for C23 (REPLAY of the application): explores PipelineApply.tla exhaustively and emits, per case, *)
 (* the pipeline's fan-out tables, the batch, the executed batch (leaf tags, in order), the slices pushed by     *)
-(* every stage and the expected symbolic result terms <<R(t, pipe) : t in batch>>.                              *)
+(* every stage and the expected symbolic result terms <<R(t, pipe) : t in batch>>.  Mutated models (Muts)      *)
+(* print whether their result still equals the reference (negative controls of Routing).                      *)
 EXTENDS PipelineApply, Json
-Emit == IF phase = "done"
-        THEN PrintT(ToJson([pipe |-> [k \in 1..Len(pipe) |-> [c \in 1..C |-> pipe[k][c - 1]]], batch |-> batch,
+Emit == IF phase # "done" THEN TRUE
+        ELSE IF mut # 0 THEN PrintT(<<"MUT", mut, IF res = Expected THEN "same" ELSE "caught">>)
+        ELSE PrintT(ToJson([cot |-> cot, pipe |-> [k \in 1..Len(pipe) |-> [c \in 1..C |-> pipe[k][c - 1]]], batch |-> batch,
                             leaves |-> leaves, slices |-> allsl, exp |-> Expected]))
-        ELSE TRUE
 =============================================================================
